@@ -291,6 +291,9 @@ class DriverRules:
                        'T=%d: stream %d is built from %s instead of its own slot iv+%d' % (T, k, show(ivf) if ivf else '?', 20 * k))
             else:
                 rec.ob('R18.a', 'R18.a@%s::stream-own-iv' % fkey(f), True, e[5], 'T=%d: stream %d starts from iv+%d' % (T, k, 20 * k))
+            # C02's statement documents the current behaviour: every stream is keyed with the first 16 bytes of the FIRST IV
+            rec.ob('R02.i', 'R02.i@%s::streams-start-from-first-iv' % fkey(f), same_obj and ivf == P(ivobj, (0,)), e[5],
+                   'T=%d: stream %d starts from %s (documented format: the first IV for every stream)' % (T, k, show(ivf) if ivf else '?'))
             okk = keyf == P(KEY, (0,))
             rec.ob('R06.b', 'R06.b@%s::stream-key-is-operation-key' % fkey(f), okk, e[5], 'stream key pointer %s' % (show(keyf) if keyf else '?'))
             dirv = args[0] if args else None
